@@ -52,6 +52,11 @@ def run(ctx):
         # names with empty path components next to the name they would "clean up" to: three different metrics
         cfg['alias'] = {'m1': 'srv..cpu', 'm2': 'srv.cpu', 'm3': '.srv.cpu.'}
       r_ops, _ = cachesys.gen_workload(ctx.rng, nmetrics=3, nts=2, nstores=ctx.pick(4, 6), ndrains=0, nqueries=0)
+      if cfg['frac'] and not any(sum(1 for o in r_ops if o[0] == 'store' and o[1] == 'm%d' % m_ and o[2] == t_) for m_ in (1, 2, 3) for t_ in (1, 2)
+                                 if all(any(o[0] == 'store' and o[1] == 'm%d' % m_ and o[2] == t2 for o in r_ops) for t2 in (1, 2))):
+        # make sure some series gets two different sub-second timestamps of one second (whatever the seed drew)
+        nid = max(o[3] for o in r_ops if o[0] == 'store')
+        r_ops = list(r_ops) + [('store', 'm1', 1, nid + 1), ('store', 'm1', 2, nid + 2)]
       pre = ('m1',)
       # default schedule without faults tells how many backend calls there are
       # the storing thread parked right before taking the cache lock for its k-th store while the writer drains
